@@ -425,7 +425,7 @@ def run(ctx):
     # closures patched onto the PrefixedArray/PascalString macros must agree with the documented expansion: the size probe (C16.R6)
     for mod, rules in ((C03, ("C03.R1",)), (C10, ("C10.R4", "C10.R5")), (C16, ("C16.R6",))):
         sub = shared_run(ctx, mod)
-        for e in sub.errors:
+        for e in relevant_errors(sub, rules):
             ctx.error("shared %s rules: %s" % (sub.prop, e))
         for o in sub.obligations:
             if o.rule in rules:
